@@ -1,5 +1,6 @@
 CONSTANTS
   GC = FALSE
+  NonTailIf = FALSE
   Family = "core-quick"
   MaxKont = 16
 SPECIFICATION Spec
